@@ -12,8 +12,11 @@ can be stored in replay files:
   ('add', m, e) ('adds', m, [e..]) ('rem', m, e, via_entity)
   ('set', m, e, k, v) ('del', m, e, k) ('dels', m, e, [k..]) ('pop', m, e, k) ('popitem', m, e)
   ('setdefault', m, e, k, v) ('update', m, e, kvs) ('clear', m, e) ('uniq', m, e, prefix) ('export', m)
+  ('probe', m, which, key)            evaluate maps[m].by_class[key] / by_target[key]: a defaultdict read, which leaves
+                                      an empty set behind when the key was absent
   ('iter', m, which, key, subop)      iterate maps[m].by_class[key] / by_target[key] / search(key) and apply
-                                      `subop` (a 'set'/'del'/'rem'/'clear'/'pop' template without m, e) to every
+                                      `subop` (a 'set'/'del'/'rem'/'clear'/'pop'/'uniq' template without m, e, or
+                                      ('spawn_like',) = create_ent with the class and name of the yielded one) to every
                                       entity yielded — implementation only (the model sees the flattened steps).
 """
 from __future__ import annotations
@@ -117,6 +120,8 @@ class World:
             objs[op[2]].make_unique(op[3])
         elif k == 'export':
             vmf.export(io.StringIO(), inc_version=False)
+        elif k == 'probe':
+            (vmf.by_class if op[2] == 'class' else vmf.by_target)[op[3]]   # noqa: B018 - the read is the operation
         else:
             raise AssertionError(op)
 
@@ -131,6 +136,11 @@ class World:
             return
         _, m, which, key, sub = op
         vmf = self.maps[m]
+        if which in ('class', 'target'):
+            # evaluating vmf.by_class[key] is itself a (defaultdict) read: one model-level step
+            flat = ('probe', m, which, key)
+            self.flat.append(flat)
+            yield flat, 0
         if which == 'class':
             it = iter(vmf.by_class[key])
         elif which == 'target':
@@ -138,12 +148,20 @@ class World:
         else:
             it = vmf.search(key)
         n = 0
+        self.iter_truncated = False
+        self.iter_yields: list[int] = []
         for ent in it:
             e = self.eid(m, ent)
             n += 1
             if e < 0 or n > 50:
+                self.iter_truncated = True
                 break
-            flat = (sub[0], m, e, *sub[1:])
+            self.iter_yields.append(e)
+            if sub[0] == 'spawn_like':
+                # the loop body creates another entity with the same class and name: a late addition to the set
+                flat = ('create', m, ent['classname'], [('targetname', ent['targetname'])] if ent['targetname'] else [])
+            else:
+                flat = (sub[0], m, e, *sub[1:])
             err = self.apply(flat)
             self.flat.append(flat)
             yield flat, err
